@@ -1,0 +1,9 @@
+//go:build verif
+
+package openapi3
+
+// VerifIntoGoRegexp exposes the unexported rewriting of ECMA 262 pattern escapes into Go's
+// regexp syntax to the verification harness (build tag `verif` only).
+func VerifIntoGoRegexp(pattern string) string {
+	return intoGoRegexp(pattern)
+}
